@@ -9,6 +9,7 @@ mod c12;
 mod c13;
 mod au;
 mod c04;
+mod c05;
 
 use util::Ctx;
 
@@ -40,6 +41,7 @@ fn main() {
         ("gen", "C12") => c12::gen(&mut ctx),
         ("gen", "C13") => c13::gen(&mut ctx),
         ("gen", "C04") => c04::gen(&mut ctx),
+        ("gen", "C05") => c05::gen(&mut ctx),
         _ => { eprintln!("unknown command"); std::process::exit(2); }
     }
     ctx.finish(stats.as_deref());
